@@ -40,7 +40,11 @@ func insideLine(x []byte, off int) bool {
 
 // compareSchedule decodes x under a scheduled reader and compares with ref.
 func compareSchedule(k *K, cd *codec, x []byte, ref []item, sizes []int, eofWith bool, what string) bool {
-	sr := &schedReader{data: x, sizes: sizes, eofWith: eofWith}
+	return compareScheduleE(k, cd, x, ref, sizes, eofWith, 0, what)
+}
+
+func compareScheduleE(k *K, cd *codec, x []byte, ref []item, sizes []int, eofWith bool, empties int, what string) bool {
+	sr := &schedReader{data: x, sizes: sizes, eofWith: eofWith, empties: empties}
 	got, over := collect(cd.seq(sr), len(x)+8)
 	k.Count("schedules", 1)
 	if over || !sameTrace(got, ref) {
@@ -117,6 +121,15 @@ func c06Schedules(c *Ctx) {
 							return
 						}
 						k.Evals(1)
+						// the same schedule with an occasional (0, nil) read in between
+						if j < 2 {
+							e := 2 + r.IntN(4)
+							if !compareScheduleE(k, cd, x, ref, sizes, eofWith, e, fmt.Sprintf("chunks %v cycled, every %dth read returns (0,nil)", sizes, e)) {
+								return
+							}
+							k.Count("schedules_with_empty_reads", 1)
+							k.Evals(1)
+						}
 					}
 				}
 				k.Count("two_chunk_splits", int64(2*(len(x)+1)))
